@@ -477,7 +477,10 @@ func newStreamReaderWithConvert[T any](origin iStreamReader, convert func(any) (
 //	fmt.Println(s) // Output: val_1
 func StreamReaderWithConvert[T, D any](sr *StreamReader[T], convert func(T) (D, error)) *StreamReader[D] {
 	c := func(a any) (D, error) {
-		return convert(a.(T)) // nolint: byted_interface_check_golintx
+		// a always comes from sr, so it holds a T; if T is an interface type a nil chunk arrives
+		// here as a nil `any`, on which a plain a.(T) would panic
+		t, _ := a.(T) // nolint: byted_interface_check_golintx
+		return convert(t)
 	}
 
 	return newStreamReaderWithConvert(sr, c)
